@@ -55,7 +55,10 @@ def lean_type(t):
         return " × ".join(lean_type(x) for x in t[1])
     return {"i": "Int", "f": "α", "b": "Bool", "A1": "Array α", "A2": "Grid2 α", "A3": "Grid3 α",
             "S2": "Grid2 (Int × Int)", "S3": "Grid3 (Int × Int × Int)",
-            "G2": "Grid2 (α × α)", "G3": "Grid3 (α × α × α)"}[t]
+            "G2": "Grid2 (α × α)", "G3": "Grid3 (α × α × α)",
+            # one array per list item (the leading axis of the vectorized wrappers' outputs)
+            "L2": "Array (Grid2 α)", "L3": "Array (Grid3 α)", "LG2": "Array (Grid2 (α × α))",
+            "LG3": "Array (Grid3 (α × α × α))", "U": "Unit"}[t]
 
 
 def parse_sig(sig):
@@ -247,6 +250,9 @@ class Fn:
             return self.load(n, env)
         if isinstance(n, ast.Call):
             return self.call(n, env)
+        if isinstance(n, ast.Attribute) and n.attr == "shape" and isinstance(n.value, ast.Name):
+            return self.call(ast.Call(func=ast.Attribute(value=ast.Name(id="np", ctx=ast.Load()), attr="shape", ctx=ast.Load()),
+                                      args=[n.value], keywords=[]), env)
         raise Untranslatable(f"{self.name}: expression {ast.unparse(n)}")
 
     def cmp(self, op, a, b):
@@ -322,6 +328,8 @@ class Fn:
             if a[1] == "i":
                 return f"(Int.ofNat (Int.natAbs {a[0]}))", "i"
             return f"(abs {self.coerce_f(a)})", "f"
+        if f == "len" and len(args) == 1 and args[0][1] == "A1":
+            return f"(Int.ofNat {args[0][0]}.size)", "i"
         if f == "float":
             return self.coerce_f(args[0]), "f"
         if f == "int":
@@ -387,6 +395,20 @@ class Fn:
         consts = [_const_int(d) for d in dims]
         nat = [f"{d[0]}.toNat" for d in ds]
         k = len(dims)
+        if fill == "empty" and not isint and consts[0] is None and k in (1, 3, 4, 5):
+            # output buffers of the vectorized wrappers, one slot per list item, every slot assigned by the loop that
+            # follows: modelled as an array of empty placeholders (the uninitialised content is never read)
+            rest = consts[1:]
+            if k == 1:
+                return f"(Array.replicate {nat[0]} zero)", "A1"
+            if k == 3 and all(c is None for c in rest):
+                return f"(Array.replicate {nat[0]} (#[] : Grid2 α))", "L2"
+            if k == 4 and (rest[2] == 2 or all(c == 0 for c in rest)) and rest[2] is not None:
+                return f"(Array.replicate {nat[0]} (#[] : Grid2 (α × α)))", "LG2"
+            if k == 4 and all(c is None for c in rest):
+                return f"(Array.replicate {nat[0]} (#[] : Grid3 α))", "L3"
+            if k == 5 and (rest[3] == 3 or all(c == 0 for c in rest)):
+                return f"(Array.replicate {nat[0]} (#[] : Grid3 (α × α × α)))", "LG3"
         if fill == "empty":
             if not all(c == 0 for c in consts):
                 raise Untranslatable(f"{self.name}: np.empty with a non-empty shape is uninitialised memory: {ast.unparse(n)}")
@@ -510,6 +532,17 @@ class Fn:
     def may_return(self, stmts):
         return any(isinstance(x, (ast.Return, ast.Raise)) for s in stmts for x in ast.walk(s))
 
+    def raising_callee(self, n):
+        """the callee of `n` if it is a call of a translated kernel that can raise"""
+        if isinstance(n, ast.Call):
+            c = self.tr.resolve(self.modkey, ast.unparse(n.func))
+            if c is not None and c.raises:
+                return c
+        return None
+
+    def is_monadic(self, stmts):
+        return any(isinstance(x, ast.Raise) or self.raising_callee(x) is not None for s in stmts for x in ast.walk(s))
+
     def block(self, stmts, env, live_out, fall, ind):
         """Lean term (list of lines) for `stmts` followed by `fall(env)`"""
         pad = "  " * ind
@@ -568,6 +601,7 @@ class Fn:
                     continue
                 if isinstance(t, ast.Tuple):
                     e = self.expr(s.value, env)
+                    rc = self.raising_callee(s.value)
                     if not (isinstance(e[1], tuple) and len(e[1][1]) == len(t.elts)):
                         raise Untranslatable(f"{self.name}: tuple assignment {ast.unparse(s)[:80]}")
                     names, post = [], []
@@ -581,7 +615,12 @@ class Fn:
                             post.append((x, nm, ty))
                         else:
                             raise Untranslatable(f"{self.name}: tuple assignment {ast.unparse(s)[:80]}")
-                    lines.append(pad + f"let ({', '.join(names)}) := {e[0]}")
+                    if rc is not None:
+                        # the callee can raise: bind in `Except Err`, the rest of the block continues in the `ok` arm
+                        lines += [pad + f"match {e[0]} with", pad + "| Except.error e => Except.error e",
+                                  pad + f"| Except.ok ({', '.join(names)}) =>"]
+                    else:
+                        lines.append(pad + f"let ({', '.join(names)}) := {e[0]}")
                     for x, ty in zip(t.elts, e[1][1]):
                         if isinstance(x, ast.Name):
                             env[x.id] = ty
@@ -697,6 +736,11 @@ class Fn:
         if bt == "A3" and len(idx) == 3:
             return (f"let {base} := {base}.set {self.index(idx[0], env)} {self.index(idx[1], env)} "
                     f"{self.index(idx[2], env)} {self.coerce_f(v)}")
+        if bt in ("L2", "L3", "LG2", "LG3") and len(idx) == 1 and not isinstance(idx[0], ast.Slice):
+            want = {"L2": "A2", "L3": "A3", "LG2": "G2", "LG3": "G3"}[bt]
+            if v[1] != want:
+                raise Untranslatable(f"{self.name}: store of a {v[1]} into a slot of {bt}")
+            return f"let {base} := {base}.setIfInBounds {self.index(idx[0], env)} {v[0]}"
         if bt == "A1" and len(idx) == 1:
             if isinstance(idx[0], ast.Slice):
                 if idx[0].lower is None and idx[0].upper is None and idx[0].step is None:
@@ -756,8 +800,12 @@ class Fn:
         for v in carried:
             if v not in env:
                 raise Untranslatable(f"{self.name}: `{v}` is carried by the loop at line {s.lineno} but not defined before it")
-        # iteration space
-        if isinstance(s.iter, ast.Call) and ast.unparse(s.iter.func) == "range" and isinstance(s.target, ast.Name):
+        # a loop whose body can raise (a `raise` statement or a call of a kernel that raises) is a fold in `Except Err`
+        monadic = self.is_monadic(s.body)
+        if monadic and (self.loop_depth != 0 or not self.raises or any(isinstance(x, ast.Return) for x in ast.walk(s))):
+            raise Untranslatable(f"{self.name}: raising loop at line {s.lineno} in an unsupported position")
+        # iteration space (`prange` has the sequential semantics of `range`: C08 is about the schedules)
+        if isinstance(s.iter, ast.Call) and ast.unparse(s.iter.func) in ("range", "prange") and isinstance(s.target, ast.Name):
             a = [self.expr(x, env) for x in s.iter.args]
             if any(x[1] != "i" for x in a) or not 1 <= len(a) <= 3:
                 raise Untranslatable(f"{self.name}: {ast.unparse(s.iter)}")
@@ -789,8 +837,8 @@ class Fn:
             for v in carried:
                 if e2.get(v) != env.get(v):
                     raise Untranslatable(f"{self.name}: `{v}` changes type inside the loop at line {s.lineno}")
-            return ["  " * (ind + 2) + st]
-        if self.may_return(s.body):
+            return ["  " * (ind + 2) + (f"Except.ok {st}" if monadic else st)]
+        if self.may_return(s.body) and not monadic:
             raise Untranslatable(f"{self.name}: return/raise inside a for loop (line {s.lineno})")
         outermost = self.loop_depth == 0
         if outermost:
@@ -800,12 +848,12 @@ class Fn:
             body = self.block(s.body, envb, set(carried) | (head_live - set(tv)), tail, ind + 2)
         finally:
             self.loop_depth -= 1
-        if not carried:
+        if not carried and not monadic:
             return []
         if outermost:
             # the whole loop nest becomes an auxiliary definition (closure-converted: every variable of the enclosing
             # function it mentions is a parameter), so that theorems can be stated and proved loop by loop
-            lines = self.fold_lines(lno, carried, st, space, pat, body, ind, pad, result_only=True)
+            lines = self.fold_lines(lno, carried, st, space, pat, body, ind, pad, result_only=True, monadic=monadic)
             used = set(self.uses(s))
             if isinstance(s.iter, ast.Name) and s.iter.id in self.tuple_literals:
                 used |= self.uses(self.tuple_literals[s.iter.id][0])
@@ -819,11 +867,23 @@ class Fn:
                 self.uses_big = True
             name = f"{self.lean_name()}_loop{lno}"
             ps = ("(big : α) " if uses_big else "") + " ".join(f"({v} : {lean_type(env[v])})" for v in free)
-            rt = " × ".join(lean_type(env[v]) for v in carried)
+            rt = " × ".join(lean_type(env[v]) for v in carried) if carried else "Unit"
+            if monadic:
+                rt = f"Except Err ({rt})"
             self.aux.append("\n".join([f"/-- the `for` loop nest at line {s.lineno} of `{self.modkey}.{self.name}` -/",
                                        f"def {name} {ps} : {rt} :="] + lines) + "\n")
             pad0 = "  " * ind_saved
             call = f"({name} {'big ' if uses_big else ''}" + " ".join(free) + ")"
+            if monadic:
+                # the rest of the enclosing block is the continuation of the `ok` arm
+                res = f"res{lno}"
+                proj = [(".1" if k == 0 else ".2" * k + (".1" if k < len(carried) - 1 else "")) for k in range(len(carried))]
+                head = [pad0 + f"match {call} with", pad0 + "| Except.error e => Except.error e"]
+                if not carried:
+                    return head + [pad0 + "| Except.ok _ =>"]
+                if len(carried) == 1:
+                    return head + [pad0 + f"| Except.ok {carried[0]} =>"]
+                return head + [pad0 + f"| Except.ok {res} =>"] + [pad0 + f"let {v} := {res}{pj}" for v, pj in zip(carried, proj)]
             if len(carried) == 1:
                 return [pad0 + f"let {carried[0]} := {call}"]
             res = f"res{lno}"
@@ -831,7 +891,19 @@ class Fn:
             return [pad0 + f"let {res} := {call}"] + [pad0 + f"let {v} := {res}{pj}" for v, pj in zip(carried, proj)]
         return self.fold_lines(lno, carried, st, space, pat, body, ind, pad, result_only=False)
 
-    def fold_lines(self, lno, carried, st, space, pat, body, ind, pad, result_only):
+    def fold_lines(self, lno, carried, st, space, pat, body, ind, pad, result_only, monadic=False):
+        if monadic:
+            if not result_only:
+                raise Untranslatable(f"{self.name}: nested raising loop")
+            if not carried:
+                return [pad + f"{space}.foldlM (fun (_ : Unit) {pat} =>"] + body + [pad + "  ) ()"]
+            if len(carried) == 1:
+                return [pad + f"{space}.foldlM (fun {st} {pat} =>"] + body + [pad + f"  ) {st}"]
+            acc = f"acc{lno}"
+            proj = [(".1" if k == 0 else ".2" * k + (".1" if k < len(carried) - 1 else "")) for k in range(len(carried))]
+            pad2 = "  " * (ind + 2)
+            pre = [pad2 + f"let {v} := {acc}{pj}" for v, pj in zip(carried, proj)]
+            return [pad + f"{space}.foldlM (fun {acc} {pat} =>"] + pre + body + [pad + f"  ) {st}"]
         if len(carried) == 1:
             if result_only:
                 return [pad + f"{space}.foldl (fun {st} {pat} =>"] + body + [pad + f"  ) {st}"]
@@ -888,10 +960,10 @@ TARGETS = [
                               ("dist2d", ([F] * 4, F), None), ("dist3d", ([F] * 6, F), None)]),
     ("F2", "_fteik/_fteik2d.py", [("t_ana", None, None), ("t_anad", None, None), ("delta", None, None),
                                   ("sweep", None, ["tt", "ttsgn"]), ("sweep2d", None, ["tt", "ttsgn"]),
-                                  ("fteik2d", None, None)]),
+                                  ("fteik2d", None, None), ("fteik2d_vectorized", None, None)]),
     ("F3", "_fteik/_fteik3d.py", [("t_ana", None, None), ("t_anad", None, None),
                                   ("sweep", None, ["tt", "ttsgn"]), ("sweep3d", None, ["tt", "ttsgn"]),
-                                  ("fteik3d", None, None)]),
+                                  ("fteik3d", None, None), ("fteik3d_vectorized", None, None)]),
     ("I2", "_interp/_interp2d.py", [("_interp2d", None, None)]),
     ("I3", "_interp/_interp3d.py", [("_interp3d", None, None)]),
     ("V2", "_interp/_vinterp2d.py", [("_vinterp2d", None, None)]),
@@ -990,6 +1062,8 @@ GROUPS = {
     "KSolver2": (["F2"], {"sweep2d", "fteik2d"}, ["KCommon", "KSweep2"]),
     "KSweep3": (["F3"], {"t_ana", "t_anad", "sweep"}, ["KCommon"]),
     "KSolver3": (["F3"], {"sweep3d", "fteik3d"}, ["KCommon", "KSweep3"]),
+    "KList2": (["F2"], {"fteik2d_vectorized"}, ["KCommon", "KSweep2", "KSolver2"]),
+    "KList3": (["F3"], {"fteik3d_vectorized"}, ["KCommon", "KSweep3", "KSolver3"]),
     "KInterp": (["I2", "I3"], None, ["KCommon"]),
     "KVInterp": (["V2", "V3"], None, ["KCommon"]),
 }
